@@ -214,8 +214,9 @@ class Operation(ABC):
                 backed_grad = np.array(backed_grad, copy=False)
 
             if self.where is not True:
-                # (the product of 0D arrays is a numpy scalar, not an array)
-                backed_grad = np.asarray(backed_grad * self.where)
+                # entries excluded by `where` receive no gradient, whatever the local
+                # derivative is there (multiplying by the mask would turn inf into nan)
+                backed_grad = np.where(self.where, backed_grad, 0)
 
             backed_grad = self.grad_post_process_fn(backed_grad, var.shape)
             assert backed_grad.shape == var.shape, (backed_grad.shape, var.shape)
